@@ -24,7 +24,8 @@ type PropConfig struct {
 
 type KnownFinding struct {
 	Status     string `json:"status"` // known | fixed
-	Property   string `json:"property"`
+	Property   string   `json:"property,omitempty"`
+	Properties []string `json:"properties,omitempty"`
 	Obligation string `json:"obligation"`
 	What       string `json:"what"`
 	Commit     string `json:"commit,omitempty"`
@@ -153,7 +154,7 @@ func (p *Program) selectFunctions(prop string, pc *PropConfig) (ids []string, sw
 }
 
 var safetyKinds = map[string]bool{"nil": true, "index": true, "slice": true, "makelen": true, "mapnilwrite": true, "typeassert": true,
-	"divzero": true, "shift": true, "panic": true, "alloc": true, "lock.reentry": true, "lock.release": true, "lock.held": true, "lock.order": true}
+	"divzero": true, "shift": true, "panic": true, "alloc": true, "gorecover": true, "dec": true, "pre": true, "typeinv": true, "lock.reentry": true, "lock.release": true, "lock.held": true, "lock.order": true}
 
 // obligationServes decides whether obligation o of function result r counts for the property.
 func obligationServes(p *Program, prop string, pc *PropConfig, r *FuncResult, o *Obligation, sweep map[string]bool) bool {
@@ -182,6 +183,13 @@ func obligationServes(p *Program, prop string, pc *PropConfig, r *FuncResult, o 
 		}
 	}
 	if hasProp(fprops, prop) {
+		// lock-discipline obligations belong to the properties that are about concurrency / failure atomicity
+		if strings.HasPrefix(o.Kind, "lock.") || o.Kind == "typeinv" {
+			return prop == "C13" || prop == "C08" || prop == "C09"
+		}
+		if o.Kind == "gorecover" {
+			return prop == "C07" || prop == "C13"
+		}
 		return true
 	}
 	if sweep[r.ID] && safetyKinds[o.Kind] {
@@ -293,23 +301,27 @@ func cmdCheck(args []string) int {
 		r.Obls = keep
 		total += len(keep)
 	}
-	timeout := 10 * time.Second
+	timeout := 20 * time.Second
 	both := false
 	if *tier == "thorough" {
-		timeout = 60 * time.Second
+		timeout = 90 * time.Second
 		both = true
+	}
+	known := loadKnown()
+	knownByObl := map[string]KnownFinding{}
+	knownIDs := map[string]bool{}
+	for _, k := range known {
+		// a finding is identified by its obligation; the properties listed with it are informative (the same
+		// failing obligation may serve several properties)
+		if k.Status == "known" {
+			knownByObl[k.Obligation] = k
+			knownIDs[k.Obligation] = true
+		}
 	}
 	out := tmpOutDir()
 	defer os.RemoveAll(out)
-	SolveAll(results, SolveOptions{Timeout: timeout, Both: both, OutDir: out, Workers: 5})
+	SolveAll(results, SolveOptions{Timeout: timeout, Both: both, OutDir: out, Workers: 5, Known: knownIDs})
 
-	known := loadKnown()
-	knownByObl := map[string]KnownFinding{}
-	for _, k := range known {
-		if k.Status == "known" && k.Property == prop {
-			knownByObl[k.Obligation] = k
-		}
-	}
 	baseline := loadBaseline(prop)
 	replayDir := filepath.Join(verifDir(), "replays", prop)
 	exit := 0
